@@ -3,6 +3,7 @@ package main
 import (
 	"bytes"
 	"fmt"
+	"runtime"
 )
 
 // accepted byte strings that the library's own encoder would not produce: pad bytes / NULs / spaces in text fields,
@@ -237,7 +238,9 @@ func init() {
 		}
 		var worst uint64
 		worstCase := ""
+		gross := 0
 		modes := []BufMode{{0, 0, false}, {0, 1 << 20, true}, {9, 1 << 16, false}}
+	types:
 		for _, t := range schema.Types {
 			for i := 0; i < per; i++ {
 				v := g.msg(t.ID, true, 0)
@@ -255,7 +258,7 @@ func init() {
 						obj := typeCtors[t.ID]()
 						d := goDecInto(obj, data, m, true)
 						// TotalAlloc counts every goroutine: confirm a large reading by re-measuring (minimum of up to 4 runs)
-						for retry := 0; retry < 3 && d.Alloc > 2048+16*uint64(len(data)); retry++ {
+						for retry := 0; retry < 3 && d.Alloc > 2048+16*uint64(len(data)) && d.Alloc < 64<<20; retry++ {
 							d2 := goDecInto(typeCtors[t.ID](), data, m, true)
 							if d2.Alloc < d.Alloc {
 								d.Alloc = d2.Alloc
@@ -274,6 +277,14 @@ func init() {
 						if d.Alloc > allocBound(len(data)) {
 							o.violate(Violation{Property: "C10", Kind: "direct", What: fmt.Sprintf("decoding %d bytes allocated %d bytes (bound %d); buffer %s", len(data), d.Alloc, allocBound(len(data)), m),
 								Case: line, Key: "alloc:" + t.QName()})
+							if d.Alloc >= 64<<20 {
+								// tens of megabytes for a few bytes of input: three such cases are enough, more would only
+								// drive the process into the garbage collector (or out of memory) before it can report
+								if gross++; gross >= 3 {
+									break types
+								}
+								runtime.GC()
+							}
 						}
 					}
 				}
